@@ -262,6 +262,7 @@ func runC40(c *Ctx) {
 		}
 		okBoth = okBoth && recv["param#2"] && recv["param#3"]
 	}
+	c.Ob("pipe", "pipe#copy-delegated-to-io.CopyBuffer", pi.Decl.Pos(), len(cp) == 1, "the byte transfer itself is io.CopyBuffer (trusted: it forwards the bytes of a Read that also returned an error, handles short writes, returns at EOF); a hand-written copy loop is not decided by this check and is reported")
 	c.Ob("pipe", "pipe#both-ends-closed-after-copy", pi.Decl.Pos(), okBoth, "after the copy returns both ends are closed on every path")
 	okDone := false
 	if len(pi.Body.List) > 0 {
